@@ -142,7 +142,14 @@ def _evaluate(check, space, hist, local_seen, seen, want_state=True):
             local_seen.add(dg)
             check.check_state(w, ctx)
         return (status, dg, ctx, ctx.obs_digest() if new else None)
-    except Exception:
+    except Exception as e:
+        # an exception raised INSIDE the tree under check while an oracle was querying it is the
+        # implementation failing (a verdict); one raised in harness code is a broken check
+        tb = traceback.extract_tb(e.__traceback__)
+        if tb and os.path.realpath(tb[-1].filename).startswith(env.REPO + os.sep):
+            where = "%s:%d" % (os.path.relpath(tb[-1].filename, env.REPO), tb[-1].lineno)
+            ctx.fail("implementation-exception", "a request issued by the oracle failed inside the library (%s): %s: %s" % (where, type(e).__name__, str(e)[:200]))
+            return ("broken", None, ctx, None)
         ctx.fail("harness-error", traceback.format_exc()[-900:])
         return ("error", None, ctx, None)
     finally:
@@ -320,6 +327,13 @@ def replay(check, space, hist):
                 check.check_trans(w, tr, ctx)
         if not w.broken:
             check.check_state(w, ctx)
+    except Exception as e:
+        tb = traceback.extract_tb(e.__traceback__)
+        if tb and os.path.realpath(tb[-1].filename).startswith(env.REPO + os.sep):
+            where = "%s:%d" % (os.path.relpath(tb[-1].filename, env.REPO), tb[-1].lineno)
+            ctx.fail("implementation-exception", "a request issued by the oracle failed inside the library (%s): %s: %s" % (where, type(e).__name__, str(e)[:200]))
+        else:
+            raise
     finally:
         w.close()
     return ctx.violations
